@@ -111,7 +111,8 @@ def run(ctx):
             extra.append({"kind": "subprocess", "start": st})
             # the same states met by an import in another environment: BUILD_TZ_CACHE set (the documented way to regenerate
             # the cache - a run that was interrupted leaves exactly these states behind), optimised byte code
-            for env_ in ({"BUILD_TZ_CACHE": "1"}, {"BUILD_TZ_CACHE": ""}, {"PYTHONOPTIMIZE": "2"}):
+            # ... an interpreter that turns warnings into errors (python -W error, a test run with filterwarnings=error)
+            for env_ in ({"BUILD_TZ_CACHE": "1"}, {"BUILD_TZ_CACHE": ""}, {"PYTHONOPTIMIZE": "2"}, {"PYTHONWARNINGS": "error"}):
                 extra.append({"kind": "subprocess", "start": st, "env": env_})
         if not ctx.quick():
             extra += [{"kind": "subprocess", "start": {"kind": "prefix", "k": rng.randrange(N)}} for _ in range(100)]
